@@ -7,6 +7,7 @@ CONSTANTS
   WIncr = 30
   FastEnter = 2000
   FastExit = 12000
+  Exact = FALSE
 INVARIANT InRange
 PROPERTIES NakNeverIncreases AckNeverDecreases ResetsToDefault FastEntry FastExitRule OnlyNakLowers
 POSTCONDITION TraceAccepted
